@@ -18,7 +18,7 @@ DEADLINES = [0.0, 0.25, 0.5, 1.0, 2.0, 5.0, 1000.0, 1000.0, 1000.0, 86430.0, 200
 STRAT_VALUES = [0.0, G, 0.25, 0.5, 1.0, 3.0, "nan", "inf", "-inf", -1.0, -0.0, 1e9, 2, 5]
 STRAT_VALUES_HUGE = STRAT_VALUES + ["hugeint", 7, 10**30, "-hugeint", -(10**30)]
 OVERSHOOT = [0.0, 0.0, 0.0, G, 0.25, 1.0]
-EXC_FAMILIES = ("plain", "runtime", "os", "frozen", "empty", "group", "type", "timeout", "poolcancel", "badstr", "emptytimeout")
+EXC_FAMILIES = ("plain", "runtime", "os", "frozen", "empty", "group", "type", "timeout", "poolcancel", "badstr", "emptytimeout", "status", "status", "status")
 # ordinary exceptions a caller callback may die with (the type can matter: handlers written for one type catch another by accident)
 CB_EXCS = ["RuntimeError", "ValueError", "KeyError", "OverflowError", "ZeroDivisionError", "TypeError", "AttributeError", "OSError"]
 SPECIALS_ALL = ["abort", "cancel", "kbd", "sysexit", "nested_exh", "nested_open", "genexit", "base"]
@@ -240,6 +240,7 @@ def rand_scenario(
         "val_kind": "odd" if rng.random() < 0.2 else "plain",  # success values that are awaitable objects, rejected results without a repr
         "hook_set": rng.choice(["both"] * 6 + ["log", "metric"]),  # which observability sinks the caller attaches
         # the operation's errors are raised while handling, or `from`, another error (a rejected inner circuit, a timeout underneath)
+        "abort_origin": rng.choice(["direct", "direct", "nested"]),  # an AbortRetryError raised by the operation itself, or by a policy nested in it
         "exc_chain": rng.choice([None] * 8 + ["open_context", "timeout_cause", "open_cause", "abort_context", "scripted_cause", "scripted_cause"]),
     }
 
